@@ -287,6 +287,12 @@ class _FilePersistence(_ConcretePersistence):
         previous_run_id = None
         line_number = 0
         for line in data_file:
+            if not line.endswith("\n"):
+                # the last line was not written completely: it is neither data nor metadata
+                if filtered_data_file:
+                    filtered_data_file.write(line)
+                continue
+
             if line.startswith("#"):  # skip comments, and shebang lines, but read run_ids
                 line_number += 1
                 if filtered_data_file:
